@@ -47,7 +47,7 @@ func init() {
 			}
 		},
 		RequiredEvents: []string{"programs", "ops", "close_calls", "close_overlapping_ops", "leak_checks_clean", "reopen_roundtrips", "double_open_refused", "connect_during_close",
-			"s1_programs", "s1_ops", "s1_close_calls", "s1_leak_checks_clean", "s1_reopen_enq_seen"},
+			"s1_programs", "s1_ops", "s1_close_calls", "s1_leak_checks_clean", "s1_reopen_enq_seen", "double_open_while_connect_pending", "double_open_recovered"},
 	})
 }
 
@@ -74,6 +74,112 @@ func c10Worker(env *fw.Env) {
 		}
 		c10One(env, i)
 	}
+	// "Open on an already-open connection fails with the already-open error and NO SIDE EFFECTS": the
+	// refused Open is issued while a reconnect (or the initial background connect) is pending
+	base := int64(1_000_000)
+	n := int64(0)
+	for rep := 0; rep < env.Pick(2, 20); rep++ {
+		for _, sit := range []string{"reconnect-pending", "initial-connect-pending"} {
+			for _, active := range []bool{true, false} {
+				if sit == "initial-connect-pending" && !active {
+					continue // a passive Open never waits for a peer
+				}
+				i := base + n
+				n++
+				if !env.Mine(n) || !env.Want(i) {
+					continue
+				}
+				c10DoubleOpen(env, i, sit, active, rep%2 == 1)
+			}
+		}
+	}
+}
+
+func c10DoubleOpen(env *fw.Env, i int64, sit string, active, delays bool) {
+	cs := c10Case{Index: i, Active: active, Delays: delays, Peer: []string{"double-open:" + sit}}
+	env.Begin(i, cs)
+	env.Sample(cs)
+	env.Eval(fw.HashStr("c10-double-open", sit, fmt.Sprint(active, delays)), true)
+	rg, err := newRig(rigOpts{Active: active, T5: 40 * time.Millisecond, BackoffInit: 5 * time.Millisecond})
+	if err != nil {
+		env.Discard()
+		return
+	}
+	if delays {
+		undo := installDelays(env.Seed+uint64(i)*31, 600*time.Microsecond, 3, "hsms.connectLoop.afterPublish", "hsms.react.beforeTeardown", "hsms.teardown.afterCancel")
+		defer func() { env.Event("delays_injected", undo()) }()
+	}
+	echo := func(c *peer.Conn, f peer.Frame) bool {
+		if f.IsData() && f.WBit() {
+			_ = c.Send(peer.Data(f.Stream(), f.Function()+1, false, f.Session, f.Sys, nil))
+		}
+
+		return !f.IsData()
+	}
+	var blocked atomic.Bool
+	rg.Trk.SetFailDial(func(int) error {
+		if blocked.Load() {
+			return errors.New("harness: refused")
+		}
+
+		return nil
+	})
+	rg.Trk.SetFailListen(func(int) error {
+		if blocked.Load() {
+			return errors.New("harness: listen failed")
+		}
+
+		return nil
+	})
+	defer func() { _ = rg.Shutdown() }()
+	if sit == "initial-connect-pending" {
+		blocked.Store(true)
+		if err := rg.Open(); err != nil {
+			env.Violate("open-background-failed", "Open(background) with an unreachable peer: "+err.Error(), cs)
+			return
+		}
+	} else {
+		if err := rg.Open(); err != nil {
+			env.Violate("open-failed", err.Error(), cs)
+			return
+		}
+		pc, _, err := rg.NextGenRetry(echo, 5)
+		if err != nil {
+			env.Discard()
+			return
+		}
+		blocked.Store(true)
+		pc.Reset()
+		defer pc.Close()
+	}
+	// the loop must be visibly running: at least two refused attempts since the block began
+	a0 := rg.Trk.DialCount() + rg.Trk.ListenCount()
+	if !waitFor(10*time.Second, func() bool { return rg.Trk.DialCount()+rg.Trk.ListenCount() >= a0+2 }) {
+		env.Discard()
+		return
+	}
+	if err := rg.Conn.Open(context.Background(), hsms.OpenBackground); !errors.Is(err, hsms.ErrAlreadyOpen) {
+		env.Violate("double-open-not-refused", fmt.Sprintf("Open while the %s returned %v, want ErrAlreadyOpen", sit, err), cs)
+		return
+	}
+	env.Event("double_open_while_connect_pending", 1)
+	time.Sleep(10 * time.Millisecond)
+	blocked.Store(false) // the peer is reachable again: the pending loop must still be there to connect
+	pc2, _, err := rg.NextGenRetry(echo, 6)
+	if err != nil {
+		env.Violate("double-open-side-effects:pending-connect-lost", fmt.Sprintf("an Open that was refused with ErrAlreadyOpen while the %s stopped the connection from ever connecting again: %v; State()=%v Reconnecting()=%d dials=%d listens=%d",
+			sit, err, rg.Conn.State(), rg.Conn.Metrics().Reconnecting(), rg.Trk.DialCount(), rg.Trk.ListenCount()), cs)
+		return
+	}
+	defer pc2.Close()
+	ctx, cancel := context.WithTimeout(context.Background(), 5*time.Second)
+	rep, err := rg.Conn.SendDataMessage(ctx, 1, 1, true, secs2.A("after-double-open"))
+	cancel()
+	if err != nil || rep == nil {
+		env.Violate("double-open-side-effects:session-broken", fmt.Sprintf("round trip after the refused Open: reply=%v err=%v", rep, err), cs)
+		return
+	}
+	env.Event("double_open_recovered", 1)
 }
 
 // libGoroutines returns the stacks of goroutines that have a library frame.
@@ -384,13 +490,7 @@ func c10One(env *fw.Env, i int64) {
 	rg.Trk.AcceptGate = nil
 	rg.listenSeen = rg.Trk.ListenCount()
 	if rg.L != nil { // connections the library dialed during the program that the peer never accepted
-		for {
-			stale, err := rg.L.Accept(5 * time.Millisecond)
-			if err != nil {
-				break
-			}
-			stale.Close()
-		}
+		env.Event("stale_backlog_connections_drained", int64(rg.L.Drain()))
 	}
 	// the reopened connection is judged on function, not on the program's hostile timers
 	_ = rg.Conn.UpdateConfigOptions(hsms.WithT3(5*time.Second), hsms.WithT6(5*time.Second), hsms.WithT7(10*time.Second), hsms.WithT8(5*time.Second))
@@ -398,7 +498,7 @@ func c10One(env *fw.Env, i int64) {
 	err = rg.Open()
 	if err == nil {
 		var missed int
-		pc, missed, err = rg.NextGenRetry(echo, 5)
+		pc, missed, err = rg.NextGenRetry(echo, 8)
 		env.Event("reopen_generations_missed_by_peer", int64(missed))
 	}
 	if err != nil {
